@@ -2,9 +2,21 @@
 
 package shard
 
+import (
+	"github.com/nspcc-dev/neofs-node/pkg/local_object_storage/blobstor/common"
+	meta "github.com/nspcc-dev/neofs-node/pkg/local_object_storage/metabase"
+)
+
 // VerifRunGC synchronously runs one garbage-collection pass (what the GC
 // ticker runs periodically).
 func (s *Shard) VerifRunGC() { s.removeGarbage() }
 
 // VerifHandleEpoch synchronously runs the new-epoch event handler.
 func (s *Shard) VerifHandleEpoch(e uint64) { s.setEpochEventHandler(EventNewEpoch(e)) }
+
+// VerifMetabase returns the shard's metabase so that the harness can project
+// its state (read-only use).
+func (s *Shard) VerifMetabase() *meta.DB { return s.metaBase }
+
+// VerifBlobstor returns the shard's blob storage.
+func (s *Shard) VerifBlobstor() common.Storage { return s.blobStor }
